@@ -76,6 +76,25 @@ func main() {
 		}
 		sort.Strings(ks)
 		fmt.Println(strings.Join(ks, "\n"))
+	case "sigs":
+		// receiver and parameter names of every function under contract (input of tool/addsigs.py)
+		p, sp, err := loadAll("/repo")
+		if err != nil {
+			fmt.Fprintln(os.Stderr, err)
+			os.Exit(2)
+		}
+		for _, k := range sp.Order {
+			f := p.Funcs[k]
+			spec := sp.Funcs[k]
+			if f == nil || len(f.Params) == 0 || f.Synthetic != "" {
+				continue
+			}
+			var ns []string
+			for _, q := range f.Params {
+				ns = append(ns, q.Name())
+			}
+			fmt.Printf("%s\t%s\t%s\n", spec.File, strings.TrimPrefix(k, spec.Pkg+"."), strings.Join(ns, ", "))
+		}
 	case "uncovered":
 		p, sp, err := loadAll("/repo")
 		if err != nil {
